@@ -2,7 +2,7 @@
 # Model/ClusterSender.lean (sendFunc, recvFinal, direct) is its hand transcription: when this changes,
 # revisit the Lean transcription first, then this expectation.
 EXPECTED_SENDER_FACTS = {
-    "c19_sendFunc": "{ maxRetries := 0 for { if recvFailed.Load() { if err := replayWait.Error(); err != nil { return err } return errors.New(\"a pipelined batch failed\") } err := sendFuncOnce(shouldInTransaction, shouldUpdateCP, lastOffset) if err == nil { return err } if replayWait.IsClosed() { return err } maxRetries++ if errors.Is(err, common.ErrMove) || errors.Is(err, common.ErrAsk) || errors.Is(err, common.ErrCrossSlots) { if ro.cfg.CanTransaction && ro.cfg.Redis.IsCluster() { return handleDirectError(err) } if maxRetries < 3 { replayWait.Sleep(1 * time.Second) continue } err = handleDirectError(err) ro.logger.Errorf(\"send error : error(%v), offset(%d)\", err, lastOffset) return err } else if isPipeline { if maxRetries < 3 { replayWait.Sleep(1 * time.Second) continue } ro.logger.Errorf(\"send error : error(%v), offset(%d)\", err, lastOffset) } return err } }",
+    "c19_sendFunc": "{ maxRetries := 0 for { if recvFailed.Load() { <-replayWait.Done() if err := replayWait.Error(); err != nil { return err } return errors.New(\"a pipelined batch failed\") } err := sendFuncOnce(shouldInTransaction, shouldUpdateCP, lastOffset) if err == nil { return err } if replayWait.IsClosed() { return err } maxRetries++ if errors.Is(err, common.ErrMove) || errors.Is(err, common.ErrAsk) || errors.Is(err, common.ErrCrossSlots) { if ro.cfg.CanTransaction && ro.cfg.Redis.IsCluster() { return handleDirectError(err) } if maxRetries < 3 { replayWait.Sleep(1 * time.Second) continue } err = handleDirectError(err) ro.logger.Errorf(\"send error : error(%v), offset(%d)\", err, lastOffset) return err } else if isPipeline { if maxRetries < 3 { replayWait.Sleep(1 * time.Second) continue } ro.logger.Errorf(\"send error : error(%v), offset(%d)\", err, lastOffset) } return err } }",
     "c19_handleError": "{ recvFailed.Store(true) if errors.Is(err, common.ErrMove) || errors.Is(err, common.ErrAsk) || errors.Is(err, common.ErrCrossSlots) { if ro.cfg.CanTransaction && ro.cfg.Redis.IsCluster() { err = handleDirectError(err) } ro.logger.Errorf(\"send error : error(%v), offset(%d)\", err, bat.offset) } failCounter.Add(float64(bat.cmdCounter), ro.cfg.InputName) batchSendCounter.Add(1, ro.cfg.InputName, transactionLabel, \"error\") replayWait.Close(err) }",
     "c19_handleDirectError": "{ if errors.Is(err, common.ErrMove) || errors.Is(err, common.ErrAsk) { return errors.Join(ErrRedisTypologyChanged, err) } if errors.Is(err, common.ErrCrossSlots) { return errors.Join(ErrBreak, err) } return err }"
 }
